@@ -82,4 +82,23 @@ Section MeshGen.
     let rx := linspace (e_le root) (e_te root) nx i in
     let tx := if oeqb tip_le tip_te then tip_le else linspace tip_le tip_te nx i in
     rx +! ((tx -! rx) /! (s_span s /! o2)) *! (y -! e_y root).
+
+  (* the asymmetric branch as repaired (fix 6265a26): sections right of the root, generated left to right from the
+     edge shared with the left neighbour; the edge is read back from the LAST column of the previous section *)
+  Definition sec_tip_right (nx : nat) (root : Edge) (s : Sec) : Edge :=
+    let root_c := oabs (e_le root -! e_te root) in
+    let tip_le := e_le root +! s_span s *! otan (s_sweep s) in
+    mkEdge tip_le (tip_le -! root_c *! s_taper s) (e_y root +! s_span s).
+  Definition sec_x_right (nx : nat) (root : Edge) (s : Sec) (i : nat) (y : T) : T :=
+    let tip := sec_tip_right nx root s in
+    let rx := linspace (e_le root) (e_te root) nx i in
+    let tx := if oeqb (e_le tip) (e_te tip) then e_le tip else linspace (e_le tip) (e_te tip) nx i in
+    rx +! ((tx -! rx) /! s_span s) *! (y -! e_y root).
+  Definition sec_y_right (root : Edge) (s : Sec) (ny j : nat) : T := linspace (e_y root) (e_y root +! s_span s) ny j.
+  Definition next_edge_right (nx : nat) (root : Edge) (s : Sec) : Edge :=
+    let y1 := e_y root +! s_span s in
+    let xle := sec_x_right nx root s 0 y1 in let xte := sec_x_right nx root s (nx - 1) y1 in
+    mkEdge (oabs (xle -! xte) +! xte) xte y1.
+  (* the first right section starts from the root section's inboard edge (its last column, y = 0) *)
+  Definition root_right_edge (root_chord : T) : Edge := mkEdge (oabs ((root_chord +! o0) -! o0) +! o0) o0 o0.
 End MeshGen.
